@@ -322,6 +322,113 @@ def run(case):
     return Outcome(None, nontrivial, labels)
 
 
+# ------------------------------------------------------------------------------------------ histories
+def strat_hist(tier):
+    vec = st.fixed_dictionaries({"n": st.floats(0, 1), "r": st.floats(0, 1), "alpha": st.floats(0, 1), "s1": st.floats(0, 1), "s2": st.floats(0, 1)})
+    return st.fixed_dictionaries({
+        "noise": st.sampled_from(["prior_scalar", "prior_per_channel", "prior_per_channel", "mixed_per_channel", "fixed_per_channel"]),
+        "model": st.sampled_from(["alpha", "exact"]),
+        "shape": st.tuples(st.integers(2, 6), st.integers(2, 6)).map(list), "spacing": gen.rounded(0.08, 0.3, 3),
+        "truth": st.fixed_dictionaries({"n": gen.rounded(1.45, 1.7, 3), "r": gen.rounded(0.3, 0.8, 3), "z": gen.rounded(4.0, 12.0, 2)}),
+        "vecs": st.lists(vec, min_size=2, max_size=5), "resid_seed": st.integers(0, 2 ** 31 - 1),
+        "subset": st.one_of(st.none(), st.floats(0.2, 0.9)),
+    })
+
+
+def run_hist(case):
+    """one model object evaluated at several parameter vectors in a row: every value equals the value a freshly
+    built model gives for that vector, and equals the Gaussian log-density at that vector's own noise levels."""
+    import xarray as xr
+    from holopy.core import prior
+    from holopy.core.metadata import detector_grid, make_subset_data
+    from holopy.scattering import Sphere, Mie, calc_holo
+    from holopy.inference import AlphaModel, ExactModel
+    t = case["truth"]
+    nx, ny = case["shape"]; sp = case["spacing"]
+    chans = ["red", "green"]
+    per_channel = case["noise"] != "prior_scalar"
+    okw = dict(medium_index=1.33, illum_wavelen={"red": 0.66, "green": 0.52} if per_channel else 0.66, illum_polarization=(1.0, 0.0))
+
+    def make_model():
+        sph = Sphere(n=prior.Uniform(1.4, 1.8), r=prior.Uniform(0.2, 0.9), center=[0.5 * nx * sp, 0.5 * ny * sp, t["z"]])
+        if case["noise"] == "prior_scalar":
+            noise = prior.Uniform(0.01, 0.6)
+        elif case["noise"] == "prior_per_channel":
+            noise = {"red": prior.Uniform(0.01, 0.6), "green": prior.Uniform(0.01, 0.6)}
+        elif case["noise"] == "mixed_per_channel":
+            noise = {"green": 0.2, "red": prior.Uniform(0.01, 0.6)}
+        else:
+            noise = {"red": 0.07, "green": 0.2}
+        if case["model"] == "alpha":
+            return AlphaModel(sph, alpha=prior.Uniform(0.5, 1.0), noise_sd=noise, theory=Mie(), **okw)
+        return ExactModel(sph, noise_sd=noise, theory=Mie(), **okw)
+    det = detector_grid((nx, ny), sp, extra_dims={"illumination": chans} if per_channel else None)
+    clean = calc_holo(det, Sphere(n=t["n"], r=t["r"], center=[0.5 * nx * sp, 0.5 * ny * sp, t["z"]]), theory=Mie(), scaling=0.8, **okw)
+    rng = np.random.RandomState(case["resid_seed"])
+    data = clean + 0.05 * rng.standard_normal(clean.shape)
+    data.attrs = clean.attrs
+    if case["subset"] is not None and not per_channel:
+        data = make_subset_data(data, pixels=max(1, int(case["subset"] * nx * ny)), seed=case["resid_seed"] % 1000)
+    model = make_model()
+    names = list(model._parameter_names)
+    labels = [case["noise"], case["model"], "vectors_%d" % len(case["vecs"])]
+
+    def vector(u):
+        out = []
+        for nmme in names:
+            base = nmme.split(":")[-1]
+            if base == "n":
+                out.append(1.4 + 0.4 * u["n"])
+            elif base == "r":
+                out.append(0.2 + 0.7 * u["r"])
+            elif base == "alpha":
+                out.append(0.5 + 0.5 * u["alpha"])
+            elif "red" in nmme or base == "noise_sd":
+                out.append(0.01 + 0.59 * u["s1"])
+            elif "green" in nmme:
+                out.append(0.01 + 0.59 * u["s2"])
+            else:
+                return None
+        return out
+    seen = []
+    for i, u in enumerate(case["vecs"]):
+        vec = vector(u)
+        if vec is None:
+            return Outcome(failure("harness_error", "cannot map parameters %r" % names), False, labels)
+        got = model.lnlike(vec, data)
+        fresh = make_model().lnlike(vec, data)
+        if got != fresh:
+            return Outcome(failure("lnlike_depends_on_history", "evaluation %d of one model object gives lnlike %r, a freshly built model %r (parameters %r)"
+                                   % (i + 1, got, fresh, dict(zip(names, vec))), noise=case["noise"]), True, labels)
+        gp = model.lnposterior(vec, data)
+        if gp != model.lnprior(vec) + got:
+            return Outcome(failure("lnposterior_sum", "evaluation %d: lnposterior %r != lnprior + lnlike" % (i + 1, gp)), True, labels)
+        # reference Gaussian log-density with this vector's own noise levels
+        val = dict(zip(names, vec))
+        scat = model.scatterer_from_parameters(vec)
+        alpha = next((v for k_, v in val.items() if k_.split(":")[-1] == "alpha"), None)
+        pub = calc_holo(data, scat, theory=Mie(), **(dict(okw, scaling=alpha) if alpha is not None else okw))
+        resid = pub - data
+        if per_channel:
+            fixed = {"red": 0.07, "green": 0.2}
+            sig = {}
+            for c in chans:
+                k_ = next((q for q in names if c in q), None)
+                sig[c] = val[k_] if k_ is not None else fixed[c]
+            sa = xr.DataArray([sig[c] for c in chans], dims="illumination", coords={"illumination": chans})
+            z = (resid / sa).values
+            logsig = float(sum(math.log(sig[c]) for c in chans)) * (resid.size / 2)
+        else:
+            s_ = next(v for k_, v in val.items() if k_.split(":")[-1] == "noise_sd")
+            z = resid.values / s_
+            logsig = resid.size * math.log(s_)
+        ref = -0.5 * resid.size * math.log(2 * math.pi) - logsig - 0.5 * float((z ** 2).sum())
+        if abs(got - ref) > 1e-10 * max(1.0, abs(ref)) * TOLX:
+            return Outcome(failure("lnlike_value", "evaluation %d: lnlike %r, Gaussian log-density at this vector's noise levels %r" % (i + 1, got, ref), noise=case["noise"]), True, labels)
+        seen.append(tuple(vec))
+    return Outcome(None, len(set(seen)) >= 2 and per_channel, labels)
+
+
 SUBCHECKS = [
     Sub("posterior_decomposition", strat, run, 3000, 50000,
         "AlphaModel / ExactModel / ExactModel with a counting calc_func on a sphere or a two-sphere collection with "
@@ -333,4 +440,11 @@ SUBCHECKS = [
         "log-density at the applicable noise; lnposterior = lnprior+lnlike; pixels= equals the same random subset; "
         "LnpostWrapper sign; non-trivial = >=2 free parameters and non-zero residuals",
         tolerances={"rel": 1e-10}),
+    Sub("evaluation_history", strat_hist, run_hist, 1200, 20000,
+        "AlphaModel / ExactModel on one sphere with free n, r (alpha) and a noise level that is a prior, a per-channel "
+        "dictionary of priors, a dictionary mixing a prior and a number, or a dictionary of numbers (2 channels with their "
+        "own wavelength); 2-5 parameter vectors evaluated in a row on ONE model object: lnlike equals that of a freshly "
+        "built model (no state carried between evaluations), equals the own Gaussian log-density at that vector's "
+        "noise levels, and lnposterior = lnprior + lnlike; non-trivial = per-channel noise and >=2 distinct vectors",
+        tolerances={"history": "bitwise", "rel": 1e-10}),
 ]
